@@ -41,13 +41,17 @@ enum Outcome {
 }
 
 fn call_proxy(req: Request, target: SocketAddr) -> Outcome {
+    call_proxy_t(req, target, TIMEOUT_MS, TIMEOUT_MS + SLACK_MS)
+}
+
+fn call_proxy_t(req: Request, target: SocketAddr, timeout_ms: u64, give_up_ms: u64) -> Outcome {
     let (tx, rx) = channel();
     let t = Instant::now();
     std::thread::spawn(move || {
-        let r = catch_unwind(AssertUnwindSafe(|| proxy_request(&req, target, Duration::from_millis(TIMEOUT_MS))));
+        let r = catch_unwind(AssertUnwindSafe(|| proxy_request(&req, target, Duration::from_millis(timeout_ms))));
         tx.send(r.map_err(|p| panic_msg(&*p))).ok();
     });
-    match rx.recv_timeout(Duration::from_millis(TIMEOUT_MS + SLACK_MS)) {
+    match rx.recv_timeout(Duration::from_millis(give_up_ms)) {
         Ok(Ok(resp)) => Outcome::Returned(resp, t.elapsed()),
         Ok(Err(p)) => Outcome::Panicked(p, t.elapsed()),
         Err(_) => Outcome::Hung,
@@ -341,6 +345,109 @@ fn case_stall(r: &mut Report, cx: &Ctx, case: u64) {
     }
 }
 
+/// Largest overshoot of three 20 ms sleeps: is this machine scheduling threads promptly right now?
+fn scheduling_overshoot_ms() -> u64 {
+    (0..3)
+        .map(|_| {
+            let t = Instant::now();
+            std::thread::sleep(Duration::from_millis(20));
+            t.elapsed().as_millis().saturating_sub(20) as u64
+        })
+        .max()
+        .unwrap_or(0)
+}
+
+/// The timeout bounds the whole exchange: bytes that arrive late must not extend it.
+fn case_late_bytes(r: &mut Report, cx: &Ctx, case: u64) {
+    let mut rng = Rng::derive(cx.seed, 0x0925_0000 + case);
+    let peer: SocketAddr = "10.20.30.40:5555".parse().unwrap();
+    let reqm = gen_request(&mut rng, &GenOpts { max_fields: 4, max_body: 20, allow_xff: false });
+    let req = parse_req(&reqm, peer).unwrap();
+    let timeout = 1000u64;
+    let slack = 500u64;
+    let first = [500u64, 700, 900][(case % 3) as usize];
+    let partial = b"HTTP/1.1 200 OK\r\nContent-Length: 40\r\n\r\n0123456789".to_vec();
+    cx.srv.push(Play::LateThenStall { first_delay_ms: first, bytes: partial, hold_ms: 4000 });
+    r.eval();
+    r.count("exchanges", 1);
+    r.count("late_bytes_cases", 1);
+    r.nontrivial(fnv(b"late") ^ case);
+    let replay = vec!["c09".to_string(), "--seed".into(), cx.seed.to_string(), "--late".into(), case.to_string()];
+    let ex = |why: &str| J::obj(vec![("upstream_behaviour", J::s(format!("silent for {} ms, then a partial response, then silence with the connection held open", first))), ("timeout_ms", J::u(timeout)), ("why", J::s(why))]);
+    match call_proxy_t(req, cx.srv.addr, timeout, timeout + 3000) {
+        Outcome::Hung => r.violation("C09/no-return-within-timeout", format!("proxy_request had not returned {} ms after the call (timeout {} ms): late partial response then stall", timeout + 3000, timeout), ex("hung"), replay),
+        Outcome::Panicked(p, _) => r.violation("C09/panic", format!("proxy_request panicked: {}", p.chars().take(80).collect::<String>()), ex(&p), replay),
+        Outcome::Returned(got, dt) => {
+            let ms = dt.as_millis() as u64;
+            r.max("max_return_ms_late_bytes_cases(timeout 1000)", ms);
+            if !is_502(&got) {
+                r.violation("C09/stalled-upstream-not-502:late-bytes", format!("late partial response then stall answered {}", u16::from(got.status_code)), ex("not 502"), replay);
+            } else if ms > timeout + slack {
+                // wall time is the property here; make sure the lateness is the proxy's and not the machine's
+                let over = scheduling_overshoot_ms();
+                if over > 100 {
+                    r.count("late_bytes_cases_discarded_machine_overloaded", 1);
+                } else {
+                    r.violation("C09/timeout-extended-by-late-bytes", format!("502 came {} ms after the call with a timeout of {} ms: bytes arriving {} ms into the exchange restarted the wait (scheduling overshoot measured right after: {} ms)", ms, timeout, first, over), ex("late"), replay);
+                }
+            } else {
+                r.count("late_bytes_cases_in_time", 1);
+            }
+        }
+    }
+}
+
+/// Round-robin under concurrent *requests*: T overlapping proxy_handler calls against slow upstreams.
+fn concurrent_rotation(r: &mut Report, seed: u64, case: u64) {
+    let mut rng = Rng::derive(seed, 0x0950_0000 + case);
+    let nt = rng.urange(2, 4);
+    let ups: Vec<ScriptedServer> = match (0..nt).map(|_| ScriptedServer::start("127.0.0.1:0")).collect::<Result<Vec<_>, _>>() {
+        Ok(u) => u,
+        Err(e) => {
+            r.harness_error(format!("cannot start upstreams: {}", e));
+            return;
+        }
+    };
+    let rounds = rng.urange(1, 3);
+    let threads = nt * rounds;
+    let mut c = Config::default();
+    c.logging.console = false;
+    c.logging.level = humphrey_server::server::logger::LogLevel::Error;
+    let state = Arc::new(AppState::from(c));
+    let lb = Arc::new(EqMutex::new(LoadBalancer { targets: ups.iter().map(|u| u.addr.to_string()).collect(), mode: LoadBalancerMode::RoundRobin, index: 0, lcg: Lcg::new() }));
+    for u in &ups {
+        for _ in 0..threads {
+            u.push(Play::DelayedRespond { delay_ms: 120, bytes: b"HTTP/1.1 200 OK\r\nContent-Length: 2\r\n\r\nok".to_vec() });
+        }
+    }
+    let barrier = Arc::new(std::sync::Barrier::new(threads));
+    let hs: Vec<_> = (0..threads)
+        .map(|i| {
+            let (state, lb, barrier) = (state.clone(), lb.clone(), barrier.clone());
+            std::thread::spawn(move || {
+                let m = ReqModel { method: "GET".into(), path: format!("/p/{}", i), query: None, version: "HTTP/1.1".into(), fields: vec![("Host".into(), 1, "hv".into())], body: None, xff: None, cookies: None };
+                let req = parse_req(&m, "10.1.1.1:999".parse().unwrap()).unwrap();
+                barrier.wait();
+                catch_unwind(AssertUnwindSafe(|| u16::from(proxy_handler(req, state, &lb, "/*").status_code))).unwrap_or(0)
+            })
+        })
+        .collect();
+    let statuses: Vec<u16> = hs.into_iter().map(|h| h.join().unwrap_or(0)).collect();
+    r.eval();
+    r.count("concurrent_rotation_rounds", 1);
+    r.nontrivial(fnv(format!("rot{}-{}-{}", case, nt, threads).as_bytes()));
+    let replay = vec!["c09".to_string(), "--seed".into(), seed.to_string(), "--rotation".into(), case.to_string()];
+    let counts: Vec<usize> = ups.iter().map(|u| u.take_log().len()).collect();
+    let ex = J::obj(vec![("targets", J::u(nt as u64)), ("overlapping_requests", J::u(threads as u64)), ("requests_received_per_target", J::s(format!("{:?}", counts))), ("statuses", J::s(format!("{:?}", statuses)))]);
+    if statuses.iter().any(|s| *s != 200) {
+        r.violation("C09/proxy-handler-wrong-response", format!("concurrent proxy_handler calls returned {:?}", statuses), ex, replay);
+    } else if counts.iter().any(|c| *c != rounds) {
+        r.violation("C09/round-robin-not-in-rotation:concurrent-requests", format!("{} overlapping requests over {} round-robin targets reached them {:?} times; strict rotation gives {} each", threads, nt, counts, rounds), ex, replay);
+    } else {
+        r.count("concurrent_rotations_exact", 1);
+    }
+}
+
 fn handler_level(r: &mut Report, cx: &Ctx, case: u64) {
     let mut rng = Rng::derive(cx.seed, 0x0930_0000 + case);
     let mut c = Config::default();
@@ -478,7 +585,7 @@ pub fn main(args: &Args) {
     let thorough = args.thorough();
     let _ = observe;
     let (n_valid, n_malformed, n_stall, n_handler, n_lb): (u64, u64, u64, u64, u64) = if thorough { (1400, 2000, 160, 800, 2000) } else { (110, 200, 40, 100, 200) };
-    let single = ["case", "malformed", "stall", "handler", "lb"].iter().find_map(|k| args.get(k).map(|v| (k.to_string(), v.parse::<u64>().unwrap())));
+    let single = ["case", "malformed", "stall", "handler", "lb", "late", "rotation"].iter().find_map(|k| args.get(k).map(|v| (k.to_string(), v.parse::<u64>().unwrap())));
     let reports = par(if single.is_some() { 1 } else { ncpu() }, move |shard, nsh| {
         let mut r = Report::new();
         let srv = match ScriptedServer::start("127.0.0.1:0") {
@@ -495,6 +602,8 @@ pub fn main(args: &Args) {
                 "malformed" => case_malformed(&mut r, &cx, *v),
                 "stall" => case_stall(&mut r, &cx, *v),
                 "handler" => handler_level(&mut r, &cx, *v),
+                "late" => case_late_bytes(&mut r, &cx, *v),
+                "rotation" => concurrent_rotation(&mut r, seed, *v),
                 _ => load_balancer(&mut r, seed, *v),
             }
             r.nontrivial(1);
@@ -504,6 +613,12 @@ pub fn main(args: &Args) {
         let mine = |c: u64| c % nsh as u64 == shard as u64;
         for c in (0..n_stall).filter(|c| mine(*c)) {
             case_stall(&mut r, &cx, c);
+        }
+        for c in (0..n_stall / 2).filter(|c| mine(*c)) {
+            case_late_bytes(&mut r, &cx, c);
+        }
+        for c in (0..n_stall).filter(|c| mine(*c)) {
+            concurrent_rotation(&mut r, seed, c);
         }
         for c in (0..n_valid).filter(|c| mine(*c)) {
             case_valid_and_cuts(&mut r, &cx, c, thorough);
@@ -524,5 +639,5 @@ pub fn main(args: &Args) {
         r
     });
     let total = Report::merge_all(reports);
-    total.write(out, "proxy_request (timeout 300 ms) against a scripted loopback upstream that records the request and then plays: valid responses over every modelled status code with Content-Length / chunked (random chunkings) / close-delimited bodies; every third one additionally cut at every byte offset (<= 260 B, sampled above) followed by FIN; 10 kinds of non-HTTP / header-malformed answers; connection refused, accept-then-silence, accept-then-close, 50 ms-per-byte trickle, head-then-silence; client requests as in C02 (<= 12 fields); proxy_handler with route-prefix stripping and blacklist; LoadBalancer::select_target from 1..8 threads over 1..4 targets. distinct = distinct upstream byte strings / histories; non-trivial = upstream messages that are complete valid responses, plus every malformed/stall/handler/balancer case", None, &["wall time is the property here: a call must return within timeout + 3 s (10x the timeout as slack)", "bare-LF line endings and an unknown HTTP version may be relayed or answered 502 (both accepted)", "status codes outside the 39 the library models are not generated"]);
+    total.write(out, "proxy_request (timeout 300 ms) against a scripted loopback upstream that records the request and then plays: valid responses over every modelled status code with Content-Length / chunked (random chunkings) / close-delimited bodies; every third one additionally cut at every byte offset (<= 260 B, sampled above) followed by FIN; 10 kinds of non-HTTP / header-malformed answers; connection refused, accept-then-silence, accept-then-close, 50 ms-per-byte trickle, head-then-silence, late partial response then stall (timeout 1000 ms, bound +500 ms); client requests as in C02 (<= 12 fields); proxy_handler with route-prefix stripping and blacklist; LoadBalancer::select_target from 1..8 threads over 1..4 targets, and overlapping proxy_handler calls against slow upstreams (per-target request counts must equal the rotation). distinct = distinct upstream byte strings / histories; non-trivial = upstream messages that are complete valid responses, plus every malformed/stall/handler/balancer case", None, &["wall time is the property here: a call must return within timeout + 3 s (10x the timeout as slack)", "bare-LF line endings and an unknown HTTP version may be relayed or answered 502 (both accepted)", "status codes outside the 39 the library models are not generated"]);
 }
